@@ -1732,6 +1732,87 @@ impl ProtocolState {
 //@end
 }
 
+//@fn gneiss-mqtt/src/protocol.rs generate_connection_closed_error props=C01
+    ensures r.kind() == GErrKind::ConnectionClosed,
+//@end
+//@fn gneiss-mqtt/src/protocol.rs generate_offline_queue_policy_failed_error props=C15
+    ensures r.kind() == GErrKind::OfflineQueuePolicyFailed,
+//@end
+//@fn gneiss-mqtt/src/protocol.rs generate_interrupt_retries_exceeded_error props=C18
+    ensures r.kind() == GErrKind::MaxInterruptedRetriesExceeded,
+//@end
+
+// C18: "fails with the retries-exceeded error exactly when a disconnection interrupts it while sent-but-unacknowledged for the (N+1)-th time"
+pub open spec fn retries_exceeded(s: ProtocolState, k: u64) -> bool {
+    s.config.max_interrupted_retries matches Some(limit) && s.operations@.contains_key(k) && awaiting_ack(s, k) && s.operations@[k].interruption_count > limit
+}
+
+impl ProtocolState {
+//@fn gneiss-mqtt/src/protocol.rs ProtocolState::fail_operations_exceeding_max_interruption_limit props=C18,C01,C11 desugar
+    requires old(self).wf(),
+    ensures final(self).wf(),
+        completion_frame(*old(self), *final(self)),
+        final(self).next_ping_timepoint == old(self).next_ping_timepoint,
+        shrunk(*old(self), *final(self)),
+        forall|k: u64| #[trigger] final(self).operations@.contains_key(k) <==> old(self).operations@.contains_key(k) && !retries_exceeded(*old(self), k),
+        state_after_failures(old(self).state, final(self).state),
+        old(self).state == ProtocolStateType::Disconnected ==> r is Ok,
+        (old(self).cur_ok() && (old(self).current_operation matches Some(c) ==> !retries_exceeded(*old(self), c))) ==> final(self).cur_ok(),
+//@@loop 0 iter=it
+            invariant *self == *old(self), self.wf(),
+                it.seq().unref().to_set() == self.pending_non_publish_operations@.values(),
+                forall|x: u64| pending_non_publish_breaching_operations@.contains(x) <==>
+                    (it.seq().unref().take(it.index@ as int).contains(x) && self.operations@[x].interruption_count > limit),
+                it.index@ == it.seq().len() ==> forall|x: u64| pending_non_publish_breaching_operations@.contains(x) <==>
+                    (self.pending_non_publish_operations@.values().contains(x) && self.operations@[x].interruption_count > limit),
+//@@loop 1 iter=it
+            invariant *self == mid, self.wf(),
+                it.seq().unref().to_set() == self.pending_publish_operations@.values(),
+                forall|x: u64| pending_publish_breaching_operations@.contains(x) <==>
+                    (it.seq().unref().take(it.index@ as int).contains(x) && self.operations@[x].interruption_count > limit),
+                it.index@ == it.seq().len() ==> forall|x: u64| pending_publish_breaching_operations@.contains(x) <==>
+                    (self.pending_publish_operations@.values().contains(x) && self.operations@[x].interruption_count > limit),
+//@@at before "let mut pending_non_publish_breaching_operations : Vec<u64> = Vec::new();"
+            proof { lemma_values_tracked(*self); }
+//@@at before "let mut pending_publish_breaching_operations : Vec<u64> = Vec::new();"
+            let ghost mid = *self;
+            proof {
+                lemma_values_tracked(*old(self)); lemma_values_tracked(mid);
+                assert(mid.pending_publish_operations@ =~= old(self).pending_publish_operations@) by {
+                    assert forall|p: u16| old(self).pending_publish_operations@.contains_key(p) implies mid.pending_publish_operations@.contains_key(p) by {
+                        let k = old(self).pending_publish_operations@[p];
+                        assert(old(self).pending_publish_operations@.values().contains(k));
+                        assert(!old(self).pending_non_publish_operations@.values().contains(k));
+                    }
+                }
+            }
+//@@at before "let val = &verif_x; @nth=1/2"
+            let ghost pv0 = pending_non_publish_breaching_operations@;
+            proof {
+                let pre = it.seq().unref().take(it.index@ as int);
+                assert(it.seq().unref().take(it.index@ + 1) =~= pre.push(*verif_x));
+                lemma_push_contains(pre, *verif_x);
+                lemma_push_contains(pv0, *verif_x);
+                lemma_values_tracked(*self);
+                assert(it.seq().unref()[it.index@ as int] == *verif_x);
+                assert(it.seq().unref().to_set().contains(*verif_x));
+                assert(it.seq().unref().take(it.seq().len() as int) =~= it.seq().unref());
+            }
+//@@at before "let val = &verif_x; @nth=2/2"
+            let ghost pv1 = pending_publish_breaching_operations@;
+            proof {
+                let pre = it.seq().unref().take(it.index@ as int);
+                assert(it.seq().unref().take(it.index@ + 1) =~= pre.push(*verif_x));
+                lemma_push_contains(pre, *verif_x);
+                lemma_push_contains(pv1, *verif_x);
+                lemma_values_tracked(*self);
+                assert(it.seq().unref()[it.index@ as int] == *verif_x);
+                assert(it.seq().unref().to_set().contains(*verif_x));
+                assert(it.seq().unref().take(it.seq().len() as int) =~= it.seq().unref());
+            }
+//@end
+}
+
 // C04/C01: of the acknowledgements/pings still queued at a disconnection only a QoS2 PUBREL is kept (its publish is re-sent from the in-flight table)
 pub open spec fn hp_retained(s: ProtocolState, id: u64) -> bool {
     s.operations@.contains_key(id) && s.operations@[id].qos2_pubrel is Some
